@@ -17,7 +17,8 @@ Tied to the code by the C17 correspondence run (incl. all pivot vectors for `N â
 exhaustively against `scipy.linalg.lu_factor`).  `pivot_loop_is_permutation`: the list-level loop of
 `utils.piv2mat` (`swap = arange(N); for i: exchange swap[i], swap[piv[i]]`) produces exactly that
 permutation, and `eye(N)[:, swap]` is the transposed permutation matrix (`pivot_matrix_entries`).
-Not a theorem: `as_utpm`, `combine_blocks`, `ndarray2utpm` (partial).
+`container_shape`, `container_element`: `as_utpm` / `ndarray2utpm` on containers of polynomials of equal coefficient shape.
+Not a theorem: `combine_blocks`, constants / mixed element kinds inside a container (partial).
 -/
 open AV NdArray Equiv
 namespace AV.C17
@@ -69,6 +70,20 @@ theorem base_and_dirs_roundtrip_dirs (x V : NdArray K) (s : List Nat) (P D : Nat
     (hV : V.shape = s ++ [P, D]) (idx : List Nat) (h : ValidIdx s idx) (p d : Nat) (hp : p < P) (hd : d < D) :
     (utpm2baseDirs (baseDirs2utpm x V)).2.get (idx ++ [p, d]) = V.get (idx ++ [p, d]) :=
   dirs_roundtrip x V s P D hx hV idx h p d hp hd
+
+/-- `as_utpm` / `ndarray2utpm` on a container of shape `outer` of polynomials with equal coefficient shape `(D, P) + e` (stacked
+as `X` of shape `(n, D, P) + e`): the result has shape `(D, P) + outer + e` â€¦ -/
+theorem container_shape (outer e : List Nat) (X : NdArray K) (n D P : Nat) (hX : X.shape = n :: D :: P :: e) :
+    (containerToUtpm outer X).shape = D :: P :: (outer ++ e) := containerToUtpm_shape outer e X n D P hX
+
+/-- â€¦ and entry `o` of it is element `ravel o` of the container, coefficient by coefficient (nothing is lost or mixed) -/
+theorem container_element (outer e : List Nat) (X : NdArray K) (n D P : Nat) (hX : X.shape = n :: D :: P :: e)
+    (d p : Nat) (hd : d < D) (hp : p < P) (o ei : List Nat) (ho : ValidIdx outer o) (he : ValidIdx e ei) :
+    (containerToUtpm outer X).get (d :: p :: (o ++ ei)) = X.get (NdArray.ravel outer o :: d :: p :: ei) :=
+  containerToUtpm_get outer e X n D P hX d p hd hp o ei ho he
+
+/-- non-vacuity: `[1, 0]` is a valid index of a `2 Ã— 3` container -/
+example : ValidIdx [2, 3] [1, 0] := by simp [ValidIdx]
 end
 
 /-- determinant sign of the pivot permutation, all `N`, all pivot vectors -/
